@@ -56,8 +56,8 @@ namespace occa {
     modeMemoryRing.addRef(mem);
   }
 
-  void modeBuffer_t::removeModeMemoryRef(modeMemory_t *mem) {
-    modeMemoryRing.removeRef(mem);
+  bool modeBuffer_t::removeModeMemoryRef(modeMemory_t *mem) {
+    return modeMemoryRing.removeRef(mem);
   }
 
   bool modeBuffer_t::needsFree() const {
